@@ -172,6 +172,20 @@ class C04(spec.Spec):
                 out.filters["variant-built-differently"] += 1
                 continue
             fam.append((label, exp, d))
+        # the same document after look-ups (of absent and present identifiers) in it and in its bundles
+        try:
+            lk = self.fresh(h).doc
+            absent = rebuild.Namer().qn("http://a/not_there_at_all")
+            for c in [lk] + list(lk.bundles):
+                c.get_record(absent)
+                c.get_record("http://nowhere.example/x")
+                for r in list(c.get_records())[:2]:
+                    if r.identifier is not None:
+                        c.get_record(r.identifier)
+                list(c.get_records(type(None)))
+            fam.append(("after-lookups", "same", lk))
+        except Exception as ex:
+            out.filters["lookup-variant-raised:%s" % type(ex).__name__] += 1
         # the same content reached by editing records IN PLACE after they have been hashed and compared
         # (add_asserted_type, add_attributes, set_time), next to the same content built directly
         try:
